@@ -871,6 +871,71 @@ pub fn dirty_slots(seed: u64, bases: &str, count: u64) {
                 dirty += 1;
             }
         }
+        // the same for streams that another writer gave a CLSID and BOTH times (tolerated by permissive open): every
+        // stream reports a nil CLSID and zero times, the time setters leave them alone, and once one of them is
+        // rewritten through the API (state bits) the bytes open strictly and show the bits
+        {
+            let mut img = b.clone();
+            let mut patched = 0;
+            for i in 1..l.dir_sectors.len() * per {
+                let o = (l.dir_sectors[i / per] + 1) * s + (i % per) * 128;
+                if o + 128 <= img.len() && img[o + 66] == 2 && rng.chance(1, 2) {
+                    img[o + 80] = 0x11;
+                    img[o + 95] = 0x22;
+                    img[o + 100..o + 108].copy_from_slice(&(131343363970000000u64 + rng.below(1000)).to_le_bytes());
+                    img[o + 108..o + 116].copy_from_slice(&(131343363980000000u64 + rng.below(1000)).to_le_bytes());
+                    patched += 1;
+                }
+            }
+            if patched > 0 {
+                let r = catch(move || -> Option<Vec<String>> {
+                    let shared = SharedFile::new(img);
+                    let mut comp = CompoundFile::open(Backend::Mem(shared.clone())).ok()?;
+                    let mut bad = Vec::new();
+                    let zero = cfb::verif::system_time_from_timestamp(0);
+                    let streams: Vec<String> = comp.walk().filter(|e| e.is_stream()).map(|e| e.path().to_string_lossy().into_owned()).take(40).collect();
+                    for e in comp.walk().filter(|e| e.is_stream()) {
+                        if !e.clsid().is_nil() || e.created() != zero || e.modified() != zero {
+                            bad.push(format!("walk: stream {} reports CLSID {} / times {:?} {:?}", e.path().display(), e.clsid(), e.created(), e.modified()));
+                            break;
+                        }
+                    }
+                    for p in streams.iter().take(6) {
+                        let _ = comp.set_modified_time(p, std::time::SystemTime::now());
+                        let _ = comp.set_created_time(p, std::time::SystemTime::now());
+                        if comp.set_state_bits(p, 5).is_err() { continue; }
+                        match comp.entry(p) {
+                            Ok(e) => if !e.clsid().is_nil() || e.created() != zero || e.modified() != zero || e.state_bits() != 5 {
+                                bad.push(format!("after the setters: stream {} reports CLSID {} times {:?} {:?} bits {}", p, e.clsid(), e.created(), e.modified(), e.state_bits()));
+                            },
+                            Err(e) => bad.push(format!("entry({}) fails: {}", p, e)),
+                        }
+                    }
+                    let _ = comp.flush();
+                    if streams.len() <= 6 {
+                        // every patched stream entry has been rewritten: the bytes are a strictly valid file again
+                        match CompoundFile::open_strict(std::io::Cursor::new(shared.snapshot())) {
+                            Ok(c2) => for p in streams.iter() {
+                                if c2.entry(p).map(|e| e.state_bits()).unwrap_or(0) != 5 { bad.push(format!("after reopening: state bits of {} are not 5", p)); }
+                            },
+                            Err(e) => bad.push(format!("after set_state_bits on every stream the bytes no longer open strictly: {}", e)),
+                        }
+                    }
+                    Some(bad)
+                });
+                match r {
+                    Ok(Some(bad)) => {
+                        created += 1;
+                        if let (Some(m), true) = (bad.first(), reported < 3) {
+                            reported += 1;
+                            println!("ORACLE foreign-stream-metadata case {} (seed {}, permissive open, {} stream entries given a CLSID and both times): {}", k, seed, patched, m);
+                        }
+                    }
+                    Ok(None) => {}
+                    Err(m) => println!("ORACLE foreign-stream-metadata case {} (seed {}): panic: {}", k, seed, m.chars().take(160).collect::<String>()),
+                }
+            }
+        }
         if dirty == 0 {
             continue;
         }
